@@ -168,10 +168,18 @@ def check_correlation(ctx, case):
             has.add('cp')
         has_cp = bool(cp)
     if 'exc' in o:
+        if case.get('invalid_by_construction'):
+            # data the documented constructor contract rejects: fine
+            ctx.klass('invalid data rejected by the constructor (%s)'
+                      % o['exc'])
+            return
         ctx.violation('constructor raised %s' % o['exc'], case,
                       {'msg': o['msg']})
         return
     obj = o['ok']
+    if case.get('invalid_by_construction'):
+        # ... but an object that IS handed out is held to the property
+        ctx.klass('object built from data outside the constructor contract')
     rep = observe(obj.get_range)
     if 'exc' in rep or rep['ok'] is None or \
             tuple(rep['ok']) != rr:
@@ -286,6 +294,39 @@ def run_shard(ctx):
                     r = ctx.sub_rng('c06case', n, pl, rg, kind, rep)
                     case = tables.make_case(r, n, pl, rg, od)
                     case['kind'] = kind
+                    check_correlation(ctx, case)
+                i += 1
+    # data the constructors are documented to reject (T_ref or a data point
+    # outside the declared range): either rejected, or -- if an object comes
+    # back -- an object like any other
+    for rep in range(reps):
+        for kind in kinds:
+            if kind == 'inc_noCp':
+                # without Cp data there is no constructor contract to speak
+                # of: the reference value IS the datum at T_ref, whatever the
+                # declared range says (see DESIGN appendix A)
+                continue
+            for j in range(6):
+                if ctx.mine(i):
+                    r = ctx.sub_rng('c06bad', kind, rep, j)
+                    case = tables.make_case(r, r.choice([3, 4, 7]),
+                                            'inside', 'tight', 'sorted')
+                    lo, hi = case['range']
+                    how = j % 3
+                    if how == 0:        # T_ref just below the range
+                        case['T_ref'] = lo - r.choice([1.85, 0.5, 50.0])
+                    elif how == 1:      # T_ref above the range
+                        case['T_ref'] = hi + r.choice([1.0, 200.0])
+                    else:               # range cut inside the table
+                        ts = sorted(case['Ts'])
+                        if len(ts) < 2:
+                            case['T_ref'] = lo - 1.85
+                        else:
+                            case['range'] = [0.5 * (ts[0] + ts[1]), hi]
+                            case['T_ref'] = max(case['T_ref'],
+                                                case['range'][0])
+                    case['kind'] = kind
+                    case['invalid_by_construction'] = True
                     check_correlation(ctx, case)
                 i += 1
     for name in libs.LIBS:
